@@ -418,3 +418,8 @@ if __name__ == "__main__":
     import gen_trans_sched      # the scheduler part: own extension of the translator (tools/c2gal_sched.py)
     n = gen_trans_sched.gen_sched()
     print("gen_trans: SchedGen.v %s/1 functions translated" % n)
+    n = gen_trans_sched.gen_init()   # the initial state: pxgstrf_relax_snode, queue_init, EnqueueRelaxSnode, ParallelInit
+    print("gen_trans: SchedInitGen.v %s/4 functions translated" % n)
+    import gen_trans_wf         # countnz / fixupL of util.c: own extension of the translator (tools/c2gal_wf.py)
+    n = gen_trans_wf.gen_wf()
+    print("gen_trans: WellFormedGen.v %s/2 functions translated" % n)
